@@ -1264,6 +1264,7 @@ func goParamName(argName string) string {
 type jarg struct {
 	Name      any      `json:"name"`
 	Type      any      `json:"type"`
+	Command   string   `json:"command"`
 	Enum      []string `json:"enum"`
 	Block     []jarg   `json:"block"`
 	Arguments []jarg   `json:"arguments"`
@@ -1273,21 +1274,98 @@ type jcmd struct {
 	Arguments []jarg `json:"arguments"`
 }
 
-func keyNames(args []jarg, out map[string]bool) {
+// keyInfo: per Go parameter name, the generator type names (FullName of hack/cmds/gen.go) of the arguments that the
+// command table types as key / as something else.  A name that occurs on both sides is disambiguated by the
+// type name the method returns.
+type keyInfo struct {
+	key map[string]map[string]bool
+	non map[string]map[string]bool
+}
+
+func (k *keyInfo) add(m map[string]map[string]bool, pname, full string) {
+	if m[pname] == nil {
+		m[pname] = map[string]bool{}
+	}
+	m[pname][full] = true
+}
+
+// argName is node.Name() of hack/cmds/gen.go
+func argName(a jarg) string {
+	var toks []string
+	if a.Command != "" {
+		toks = append(toks, genName(a.Command))
+	} else {
+		switch n := a.Name.(type) {
+		case string:
+			toks = append(toks, genName(n))
+		case []any:
+			for _, nn := range n {
+				if s, ok := nn.(string); ok {
+					toks = append(toks, genName(s))
+				}
+			}
+		}
+		if len(toks) == 0 {
+			kids := a.Block
+			if len(a.Arguments) != 0 {
+				kids = a.Arguments
+			}
+			if len(kids) > 0 {
+				toks = append(toks, argName(kids[0]))
+			}
+		}
+	}
+	dup := map[string]bool{}
+	out := ""
+	for _, t := range toks {
+		if t == "" || dup[t] {
+			continue
+		}
+		dup[t] = true
+		out += t
+	}
+	return out
+}
+
+func keyNames(args []jarg, prefix string, ki *keyInfo) {
 	for _, a := range args {
+		kids := a.Block
+		if len(a.Arguments) != 0 {
+			kids = a.Arguments
+		}
+		// makeChildNodes: a block's command is pushed down to its first child
+		if len(kids) > 0 && a.Command != "" {
+			if t, _ := a.Type.(string); t != "oneof" {
+				kids = append([]jarg(nil), kids...)
+				if kids[0].Command == "" {
+					kids[0].Command = a.Command
+				} else {
+					kids[0].Command = a.Command + " " + kids[0].Command
+				}
+			}
+		}
+		full := prefix + argName(a)
 		switch t := a.Type.(type) {
 		case string:
-			if t == "key" {
-				if n, ok := a.Name.(string); ok {
-					out[goParamName(n)] = true
+			if n, ok := a.Name.(string); ok {
+				if t == "key" {
+					ki.add(ki.key, goParamName(n), full)
+				} else {
+					ki.add(ki.non, goParamName(n), full)
 				}
 			}
 		case []any:
 			names, _ := a.Name.([]any)
 			for i, ti := range t {
-				if ts, ok := ti.(string); ok && ts == "key" && i < len(names) {
-					if n, ok := names[i].(string); ok {
-						out[goParamName(n)] = true
+				ts, ok1 := ti.(string)
+				if !ok1 || i >= len(names) {
+					continue
+				}
+				if n, ok := names[i].(string); ok {
+					if ts == "key" {
+						ki.add(ki.key, goParamName(n), full)
+					} else {
+						ki.add(ki.non, goParamName(n), full)
 					}
 				}
 			}
@@ -1295,15 +1373,14 @@ func keyNames(args []jarg, out map[string]bool) {
 		for _, e := range a.Enum {
 			parts := strings.Split(e, " ")
 			if len(parts) == 2 && parts[1] == "key" {
-				out["key"] = true
+				ki.add(ki.key, "key", "")
 			}
 		}
-		keyNames(a.Block, out)
-		keyNames(a.Arguments, out)
+		keyNames(kids, full, ki)
 	}
 }
 
-var jsonKeys = map[string]map[string]bool{} // command (tokens joined by space) -> go parameter names typed key
+var jsonKeys = map[string]*keyInfo{} // command (tokens joined by space) -> key information
 
 func parseJSON(dir string) {
 	files, _ := filepath.Glob(filepath.Join(dir, "*.json"))
@@ -1321,14 +1398,30 @@ func parseJSON(dir string) {
 			die(token.NoPos, "%s: %v", fn, err)
 		}
 		for k, c := range cmds {
-			m := map[string]bool{}
-			keyNames(c.Arguments, m)
+			ki := &keyInfo{key: map[string]map[string]bool{}, non: map[string]map[string]bool{}}
+			keyNames(c.Arguments, genName(k), ki)
 			if _, dup := jsonKeys[k]; dup {
 				die(token.NoPos, "%s: command %s appears in two tables", fn, k)
 			}
-			jsonKeys[k] = m
+			jsonKeys[k] = ki
 		}
 	}
+}
+
+// declaredKey: does the command table type parameter pname of a method returning type tgt as a key?
+func (k *keyInfo) declaredKey(pname, tgt string, pos token.Pos) bool {
+	if len(k.key[pname]) == 0 {
+		return false
+	}
+	if len(k.non[pname]) == 0 {
+		return true
+	}
+	// the name is used for a key argument and for a non-key argument of the same command
+	inKey, inNon := k.key[pname][tgt], k.non[pname][tgt]
+	if inKey == inNon {
+		die(pos, "parameter %s of a method returning %s: the command table uses this name both for a key and for a non-key argument and the type name does not tell them apart", pname, tgt)
+	}
+	return inKey
 }
 
 // ---------------------------------------------------------------- output
@@ -1449,7 +1542,7 @@ func main() {
 			}
 			for _, e := range nodes[cur].edges {
 				for i, p := range e.params {
-					if keys[p.name] && p.str {
+					if p.str && keys.declaredKey(p.name, e.tgt, e.pos) {
 						dup := false
 						for _, k := range e.keydecl {
 							dup = dup || k == i
